@@ -9,6 +9,7 @@ import Adc.Series
 import Adc.Scaling
 import Adc.Latex
 import Adc.DeltaEval
+import Adc.Restricted
 /- Line-protocol driver: one JSON request per line on stdin, one JSON answer per line on stdout. -/
 open Lean Adc Adc.Wire
 
@@ -212,6 +213,11 @@ def handle (j : Json) : P Json := do
       match elimDelta t k b with
       | none => pure (Json.mkObj [("step", true), ("k", k), ("kill_second", b), ("applies", false)])
       | some t' => pure (Json.mkObj [("step", true), ("k", k), ("kill_second", b), ("applies", true), ("t", jTerm t')])
+  | "forgetspin" =>  -- C15: restricted reference, every beta index relabelled alpha
+    let e ← pExpr (← fld j "e")
+    match forgetSpin e with
+    | none => pure (Json.mkObj [("ok", false)])
+    | some r => pure (Json.mkObj [("ok", true), ("e", jExpr r)])
   | _ => throw s!"unknown op {op}"
 
 partial def loop (h : IO.FS.Stream) (out : IO.FS.Stream) : IO Unit := do
